@@ -26,10 +26,11 @@ def load_prop(pid):
 
 
 class Violation:
-    def __init__(self, oracle, cls, detail=""):
+    def __init__(self, oracle, cls, detail="", focus=None):
         self.oracle = oracle
         self.cls = cls
         self.detail = detail
+        self.focus = focus
 
     def key(self):
         return "%s|%s" % (self.oracle, self.cls)
@@ -57,8 +58,8 @@ class Outcome:
     def add(self, setname, item):
         self.sets.setdefault(setname, set()).add(item)
 
-    def violate(self, oracle, cls, detail=""):
-        self.violations.append(Violation(oracle, cls, detail))
+    def violate(self, oracle, cls, detail="", focus=None):
+        self.violations.append(Violation(oracle, cls, detail, focus))
 
 
 class Lane:
@@ -317,6 +318,15 @@ def triage(prop, lane, spec, viol, findings, min_budget):
             raise
         if key not in keys2:
             return {"kind": "known", "kf": f.get("id"), "what": f.get("what"), "key": key}
+    if hasattr(prop, "focus_spec"):
+        try:
+            fs = prop.focus_spec(copy.deepcopy(spec), viol)
+            if fs is not None and key in check_keys(prop, lane, fs):
+                spec = fs
+        except SUT.HarnessError:
+            raise
+        except Exception:
+            pass
     small, mstats = minimise(lambda s: check_keys(prop, lane, s), spec, key, budget_s=min_budget,
                              extra=getattr(prop, "reduction_candidates", None))
     return {"kind": "violation", "key": key, "spec": small, "min": mstats, "orig_digest": spec_digest(spec)}
@@ -588,8 +598,10 @@ def run_batch(pid, tier, batch_seed, nlanes=None, budget_s=None, count=None):
                 pass
     wall = time.time() - t0
     write_evidence(prop, tier, batch_seed, agg, wall, n_viol, harness_errors, nlanes)
-    for h in harness_errors[:20]:
-        print("HARNESS-ERROR:", h[:1200])
+    for h in harness_errors[:3]:
+        print("HARNESS-ERROR:", h[-700:])
+    if len(harness_errors) > 3:
+        print("HARNESS-ERROR: ... %d more" % (len(harness_errors) - 3))
     print("%s %s: scenarios=%d exports=%d nontrivial=%d violations=%d known=%d harness_errors=%d wall=%.1fs" % (
         pid, tier, agg["scenarios"], agg["exports"], len(agg["digests"]), n_viol, len(agg["known"]),
         len(harness_errors), wall))
